@@ -84,6 +84,17 @@ def gen_universe(rnd, n):
             if rnd.random() < (0.5 if name[0] in "UP" else 0.3):
                 tab[i] = kids(rnd.choice(ks), allow_empty)
         U["rules"][name] = tab
+    # two classes that are both equivalent (unary rules) to one hub class which is itself equivalent to a further class:
+    # chains of equivalences sharing a hidden class
+    if len(nonempty) >= 5 and rnd.random() < 0.4:
+        a1, a2, hub, far = rnd.sample([i for i in nonempty if i != 0], 4) if len(nonempty) >= 5 else (None,) * 4
+        U["rules"]["I1"][a1] = (hub,)
+        U["rules"]["I1"][a2] = (hub,)
+        U["rules"]["I2"][hub] = (far,)
+        U["rules"]["I1"].pop(hub, None)
+        U["rules"]["U1"][0] = (a1, a2)
+    # a product strategy that agrees with the union U1 on the children of some classes: the same (parent, children) with other shifts
+    U["rules"]["P2"] = {i: ch for i, ch in U["rules"]["U1"].items() if len(ch) >= 2 and all(not U["empty"][c] for c in ch) and rnd.random() < 0.6}
     U["rules"]["V1"] = {i: () for i in nonempty if rnd.random() < 0.25}
     for i in U["rules"]["V1"]:
         if rnd.random() < 0.5: U["atom"][i] = True
@@ -97,9 +108,9 @@ def gen_universe(rnd, n):
     return U
 
 def gen_pack(rnd, iterative=False):
-    strat = {"U1": TUnion("U1"), "U2": TUnion("U2"), "P1": TProd("P1"),
+    strat = {"U1": TUnion("U1"), "U2": TUnion("U2"), "P1": TProd("P1"), "P2": TProd("P2"),
              "I1": TUnion("I1", ignore_parent=True), "I2": TUnion("I2", ignore_parent=True), "Y1": TSym("Y1"), "F1": TFactory("F1")}
-    exp_pool = ["U1", "U2", "P1", "F1"]; rnd.shuffle(exp_pool)
+    exp_pool = ["U1", "U2", "P1", "F1"] + (["P2"] if rnd.random() < 0.5 else []); rnd.shuffle(exp_pool)
     ninit = rnd.randint(0, 2); init = exp_pool[:ninit]; rest = exp_pool[ninit:]
     sets = []
     while rest:
